@@ -158,7 +158,7 @@ def apply_op(U, op, letters):
 
         newd = fd.Dimension(letter="S", name="Stacked", items=["s0", "s1"])
         a0 = arr("x")
-        a1 = arr("x", tag="y")
+        a1 = arr("x2") if "x2" in op["arrays"] else arr("x", tag="y")  # the parts may be stored in different orders
         res = flodym_array_stack([a0, a1], newd)
         after(a0, a1)
         rule = None if list(res.dims.letters) == list(letters["x"]) + ["S"] else "stack order"
@@ -325,6 +325,7 @@ def cases(draw, max_dims=4, max_len=3):
         op["shuffle"] = draw(st.booleans())
     elif kind == "stack":
         new("x", min_dims=1)
+        A["x2"] = dict(A["x"], tag="y")
     else:  # lifetime
         op["model_dims"] = allL
         op["cls"] = draw(st.sampled_from(["NormalLifetime", "FoldedNormalLifetime", "LogNormalLifetime", "WeibullLifetime", "FixedLifetime"]))
@@ -400,7 +401,7 @@ class AllPerms(Facet):
                 {"kind": "from_df", "index": False, "dim_to_columns": None, "shuffle": True, "arrays": {"x": X}},
                 {"kind": "from_df", "index": True, "dim_to_columns": letters[0], "shuffle": False, "arrays": {"x": X}},
                 {"kind": "split", "dims": [letters[1]], "arrays": {"x": X}},
-                {"kind": "stack", "arrays": {"x": Y3}},
+                {"kind": "stack", "arrays": {"x": Y3, "x2": dict(Y3, tag="y")}},
             ]
             extra = []
             if nd == 4:
